@@ -333,7 +333,8 @@ fn main() {
                             let mut b2 = s2.take_bundle();
                             let newer = cfg.cs_json(&b2.to_plain_state(OriginalValuesKnown::No));
                             b2.prepend_state(b1);
-                            json!({"newer": newer, "result": cfg.cs_json(&b2.to_plain_state(OriginalValuesKnown::No))})
+                            json!({"newer": newer, "result": cfg.cs_json(&b2.to_plain_state(OriginalValuesKnown::No)),
+                                   "result_yes": cfg.cs_json(&b2.to_plain_state(OriginalValuesKnown::Yes))})
                         }
                         _ => {
                             // preload: State over D0 with B1 preloaded  vs  State over the merged database
